@@ -1192,7 +1192,7 @@ MUTANTS += [
 
 def run_voronoi_cell_areas(mutate=None, prefixes=("C07.",)):
     """compute_voronoi_polygon_areas, the per-site rule, on the REAL code with real numpy on object arrays: the combinatorial structure of ONE cell is
-    concrete (an interior cell with 4 Voronoi vertices, or a boundary cell with 1 or 2 Voronoi vertices whose site is an end point of exactly two boundary edges, the site at
+    concrete (an interior cell with 4 Voronoi vertices, or a boundary cell with 1, 2 or 3 Voronoi vertices whose site is an end point of exactly two boundary edges, the site at
     different positions of the site list, further sites and boundary edges around it), every coordinate is a symbolic real, and the two geometric
     oracles are abstract: the convex-hull routine (area of the hull of a POINT SET, convexity flag: free answers) and the angular sort (an arbitrary
     permutation of the rows - all permutations are enumerated).  Decided for all coordinates and all oracle answers:
@@ -1232,7 +1232,7 @@ def run_voronoi_cell_areas(mutate=None, prefixes=("C07.",)):
                 return i
         return n - 1
 
-    CASES = [dict(kind="interior", m=4, pos=1), dict(kind="boundary", m=1, pos=2), dict(kind="boundary", m=2, pos=0, flip=True)]
+    CASES = [dict(kind="interior", m=4, pos=1), dict(kind="boundary", m=1, pos=2), dict(kind="boundary", m=2, pos=0, flip=True), dict(kind="boundary", m=3, pos=1)]
 
     def body(case):
         c = sym.ctx()
